@@ -88,6 +88,14 @@ def catalogue():
     c["dict-typed-v"] = ({"k": "Dict", "key": {"k": "Str"}, "val": {"k": "Int"}, "o": {"validator": "distinct-values"}},
                          [D(("a", 1), ("b", 2)), D(("a", "3"))], [D(("a", 1), ("b", "1")), D(("a", "x"))])
     c["challenge-counter"] = ({"k": "Challenge", "o": {"hash_algorithm": "sha1", "default_counter": True}}, ["pw", "pw2"], [5])
+    # the same built-in constraints with a pass-through custom validator attached (the normal form must survive it)
+    c["port@v"] = ({"k": "Port", "o": {"validator": "identity", "default": 8080}}, [80, "443"], [0, 70000, "http"])
+    c["loglevel@v"] = ({"k": "LogLevel", "o": {"validator": "identity", "default": "info"}}, ["debug", " WARNING "], ["trace", 3])
+    c["net@v"] = ({"k": "Net", "o": {"validator": "identity", "min_prefix_len": 8}}, ["10.0.0.0/8", "1.2.3.4"], ["10.0.0.1/8", "0.0.0.0/0"])
+    c["float@v"] = ({"k": "Float", "o": {"validator": "identity", "max": 10}}, [F(0.5), "1", 3], [11, "x"])
+    c["list-int@iv"] = ({"k": "List", "item": {"k": "Int", "o": {"min": 0, "max": 9, "validator": "identity"}}}, [[1, "2"], []], [[10], ["x"]])
+    c["dict-typed@vv"] = ({"k": "Dict", "key": {"k": "Str", "o": {"transform_strip": True, "validator": "identity"}},
+                           "val": {"k": "Int", "o": {"max": 9, "validator": "identity"}}}, [D((" K ", "2"))], [D(("k", 10))])
     c["str-req-nodflt"] = ({"k": "Str", "o": {"required": True}}, ["v", "w"], [None, "", 5])
     c["dict-byteskey"] = ({"k": "Dict", "key": {"k": "Bytes", "o": {"encoding": "hex"}}, "val": {"k": "Int"}}, [D((Y(b"\xab\xcd"), 1)), D((Y(b"\xa0"), 2), ("k", 3))], [D((5, 1))])
     c["dict-any-empty-dflt"] = ({"k": "Dict", "o": {"default": D()}}, [D(("k", 1))], ["x"])
@@ -101,7 +109,7 @@ def catalogue():
 
 def quick_leaves():
     return ["str-norm", "str-regex-req", "int09", "int-req", "bool", "net", "bytes", "challenge", "list-int", "list-str-req",
-            "dict-typed", "any", "float", "host", "str-req-nodflt", "str-strip-case-min", "str-upper-max", "list-int-v", "int-even", "dict-typed-v", "bool-t", "int-dflt-nonzero", "str-dflt"]
+            "dict-typed", "any", "float", "host", "str-req-nodflt", "str-strip-case-min", "str-upper-max", "list-int-v", "int-even", "dict-typed-v", "bool-t", "int-dflt-nonzero", "str-dflt", "port@v", "loglevel@v", "net@v", "float@v", "list-int@iv", "dict-typed@vv"]
 
 
 # ---------------------------------------------------------------------------------------------
